@@ -156,7 +156,7 @@ def _numstyle(rng):
 
 def _mk(rng, api, start, stop, count, factor, jitter, take):
     return {"api": api, "start": fhex(start), "stop": fhex(stop), "count": count, "factor": fhex(factor),
-            "jitter": jitter, "take": take, "draws": _draws(rng),
+            "jitter": jitter, "take": take, "draws": _draws(rng), "omit_factor": factor == 2.0 and rng.random() < 0.5,
             "style": [_numstyle(rng), _numstyle(rng), _numstyle(rng)],
             "call": rng.choice(["pos", "kw", "mixed"])}
 
@@ -363,13 +363,15 @@ def _args(case):
     kw = {}
     if case["count"] != "omit":
         kw["count"] = case["count"]
-    kw["factor"] = factor
+    omit_factor = bool(case.get("omit_factor")) and unhex(case["factor"]) == 2.0   # default factor=2.0
+    if not omit_factor:
+        kw["factor"] = factor
     if case["jitter"][0] != "omit":
         kw["jitter"] = _jit_arg(case["jitter"])
     if case["call"] == "kw":
         kw.update(start=start, stop=stop)
         return (), kw
-    if case["call"] == "pos" and "count" in kw:
+    if case["call"] == "pos" and "count" in kw and "factor" in kw:
         a = [start, stop, kw.pop("count"), kw.pop("factor")]
         if "jitter" in kw:
             a.append(kw.pop("jitter"))
